@@ -62,7 +62,7 @@ def run(ctx):
         replay_cases(ctx, gen_transitions(ctx, "t"))
     # 4. impl -> spec: order table and random long words
     ev = ctx.work / "events.ndjson"
-    ctx.dsv("C10", "drive", "--out", ev, "--ops", 1500 if ctx.quick else 12000, "--maxlen", 60 if ctx.quick else 200)
+    ctx.dsv("C10", "drive", "--out", ev, "--ops", 1500 if ctx.quick else 12000, "--maxlen", 60 if ctx.quick else 200, "--periodic", 60 if ctx.quick else 400)
     rej = ctx.validate("Trace_C10", ev, shard=400)
     ctx.confirm_and_raise("Trace_C10", rej)
 
